@@ -27,7 +27,7 @@ T0 = time.time()
 RAFTSIM_SRC = os.path.join(common.ROOT, "raftsim")
 ATTACK_FILE = os.path.join(common.SPEC, "EtcdRaft_attacks.json")
 FLAGS_CHEAP = ["VoteIgnoreVoted", "NoPersistVote", "VoteIgnoreLog", "QuorumMinusOne"]
-FLAGS_ALL = FLAGS_CHEAP + ["HeartbeatCommit", "AppendTruncates", "CommitAnyTerm"]
+FLAGS_ALL = FLAGS_CHEAP + ["HeartbeatCommit", "AppendTruncates"]   # CommitAnyTerm: BFS of ~1 h, stored schedule only
 ATTACK_OPT = {"CommitAnyTerm": {"maxents": 1}}
 
 
@@ -55,8 +55,8 @@ def unquote(line):
     return json.loads(line)
 
 
-def tlc_model_check(workers, timeout):
-    r = common.run_tlc("MC_Raft3", cfg="MC_Raft3.cfg", workers=workers, heap="6g", timeout=timeout)
+def tlc_model_check(cfg, workers, timeout):
+    r = common.run_tlc("MC_Raft3", cfg=cfg, workers=workers, heap="8g", timeout=timeout)
     return r
 
 
@@ -92,6 +92,18 @@ def tlc_attack(flag, workers, timeout):
     return r, found
 
 
+def expand_lost(steps):
+    """LossySend instances record messages lost at send time in act.lost: make them explicit Drop steps."""
+    out = []
+    for st in steps:
+        a = dict(st["a"])
+        lost = a.pop("lost", None) or []
+        out.append({"a": a})
+        for m in lost:
+            out.append({"a": {"name": "Drop", "m": m}})
+    return out
+
+
 def run_monitor(trace_path):
     """RaftObs over one ndjson trace. Returns (ok_infra, mismatches[list of dict], lines, wall)."""
     mism = []
@@ -109,6 +121,21 @@ def run_monitor(trace_path):
     r = common.run_tlc("RaftObs", workers=1, heap="3g", extra_env={"TRACE": trace_path}, timeout=900, line_cb=cb)
     ok = (r.rc == 0 and not r.timed_out and done.get("consumed") == done.get("lines") and done.get("lines") is not None)
     return ok, mism, done.get("lines", 0), r
+
+
+def run_trace_validation(trace_path, cfg):
+    """B2: TraceEtcdRaft over one spec-scope trace. Returns (infra_ok, lines, matched, TLCResult)."""
+    done = {}
+
+    def cb(line):
+        if line.startswith('"TRACE-VALIDATION '):
+            done.update(json.loads(unquote(line)[len("TRACE-VALIDATION "):]))
+            return True
+        return False
+
+    r = common.run_tlc("TraceEtcdRaft", cfg=cfg, workers=1, heap="3g", extra_env={"TRACE": trace_path}, timeout=900, line_cb=cb)
+    ok = (not r.timed_out) and done.get("lines") is not None and r.rc in (0, 10, 12)
+    return ok, done.get("lines", 0), done.get("matched", 0), r
 
 
 # ------------------------------------------------------------------------------------------- traces
@@ -272,7 +299,8 @@ def main():
 
     # ---- 1. model sanity (exhaustive) in the background
     mc_workers = 5 if QUICK else 8
-    f_mc = pool.submit(tlc_model_check, mc_workers, 170 if QUICK else 900)
+    MC_CFG = "MC_Raft3.cfg" if QUICK else "MC_Raft3_full.cfg"
+    f_mc = pool.submit(tlc_model_check, MC_CFG, mc_workers, 600 if QUICK else 1100)
     f_cov = None
     if not QUICK:
         f_cov = pool.submit(tlc_coverage, 2, 1100)
@@ -282,13 +310,13 @@ def main():
     nsim = 2 if QUICK else 10
     for k in range(nsim):
         for cfg, me in (("MC_Raft3_sim.cfg", 0), ("MC_Raft3_sim1.cfg", 1)):
-            num = 150 if QUICK else 400
+            num = 60 if QUICK else 300
             sim_jobs.append((me, pool.submit(tlc_simulate, cfg, num, 40, SEED * 1000 + k * 2 + me + 1)))
     atk_jobs = {}
     live_flags = FLAGS_CHEAP if QUICK else FLAGS_ALL
     for fl in live_flags:
-        heavy = fl in ("AppendTruncates", "CommitAnyTerm", "HeartbeatCommit")
-        atk_jobs[fl] = pool.submit(tlc_attack, fl, 4 if heavy else 1, 1000 if heavy else 120)
+        heavy = fl in ("AppendTruncates", "HeartbeatCommit")
+        atk_jobs[fl] = pool.submit(tlc_attack, fl, 3 if heavy else 1, 900 if heavy else 300)
 
     # ---- 3. random runs on the real code
     nfiles = 12 if QUICK else 16
@@ -316,6 +344,23 @@ def main():
     for p in rnd_files:
         rnd_parts += split_trace(p, work, os.path.basename(p)[:-7] + "-p", 6000) if not QUICK else [p]
     mon_jobs = [("random", os.path.basename(p), p, pool.submit(run_monitor, p)) for p in rnd_parts]
+
+    # ---- 3b. B2: spec-scope random runs validated against EtcdRaft.tla (and monitored like all real runs)
+    b2_jobs = []
+    nb2 = 1 if QUICK else 6
+    for k in range(nb2):
+        for prof, cfg in (("n3-spec", "TraceEtcdRaft.cfg"), ("n3-spec-one", "TraceEtcdRaft_one.cfg")):
+            p = os.path.join(work, "b2-%s-%d.ndjson" % (prof, k))
+            pr = subprocess.run([sim_bin, "random", "-seed", str(SEED * 100 + 50 + k), "-runs", str(12 if QUICK else 60), "-events", "300",
+                                 "-nodes", "-1", "-msgs", "-profile", prof, "-out", p],
+                                stdout=subprocess.PIPE, stderr=subprocess.STDOUT, text=True, timeout=600)
+            if pr.returncode != 0:
+                common.die_infra("raftsim random (B2) failed:\n" + pr.stdout[-2000:])
+            m = re.search(r"^STATS (.*)$", pr.stdout, re.M)
+            rnd_stats.append(json.loads(m.group(1)) if m else {})
+            rnd_files.append(p)
+            b2_jobs.append((p, cfg, pool.submit(run_trace_validation, p, cfg)))
+            mon_jobs.append(("random", os.path.basename(p), p, pool.submit(run_monitor, p)))
 
     # ---- 4. collect schedules, replay on the real code
     behaviours = []
@@ -357,7 +402,7 @@ def main():
         for k, st in enumerate(attacks[fl]):
             opt = {"nodes": 3, "voters": [1, 2, 3], "learners": [], "maxents": 0}
             opt.update(ATTACK_OPT.get(fl, {}))
-            behaviours.append({"id": "attack-%s-%d" % (fl, k), "opt": opt, "lockstep": False, "steps": st})
+            behaviours.append({"id": "attack-%s-%d" % (fl, k), "opt": opt, "lockstep": False, "quiesce": 3, "steps": expand_lost(st)})
             natk += 1
     log("attack schedules: %d (stored %d, new from live TLC runs %d) for rules %s" % (natk, stored, live, sorted(attacks)))
 
@@ -410,6 +455,34 @@ def main():
             save_violation(verdict, k2, src_name, p, mm)
     log("RaftObs: %d real traces, %d lines, %d mismatches" % (traces, lines_checked, mism_total))
 
+    # ---- 5b. B2 results
+    b2_lines = b2_matched = b2_traces = 0
+    b2_div = []
+    for p, cfg, fj in b2_jobs:
+        ok, n, matched, r = fj.result()
+        if not ok:
+            common.die_infra("TraceEtcdRaft failed on %s (rc=%s):\n%s" % (p, r.rc, r.out[-3000:]))
+        b2_lines += n
+        if matched >= n and r.rc == 0:
+            b2_matched += n
+            with open(p) as f:
+                b2_traces += sum(1 for line in f if '"ev":"reset"' in line[:40])
+        else:
+            b2_matched += max(0, matched - 1)
+            ev = ""
+            try:
+                with open(p) as f:
+                    for k, line in enumerate(f, 1):
+                        if k == matched:
+                            e = json.loads(line)
+                            ev = json.dumps(e.get("arg"))[:300]
+                            break
+            except Exception:
+                pass
+            b2_div.append({"trace": os.path.basename(p), "line": matched, "violated": r.violated, "event": ev})
+    log("B2 trace validation against EtcdRaft.tla: %d/%d lines matched, %d traces fully accepted, %d rejected" % (
+        b2_matched, b2_lines, b2_traces, len(b2_div)))
+
     # ---- 6. vacuity guard: corrupted copies of an accepted trace must be rejected
     corr = {}
     if mism_total == 0:
@@ -420,8 +493,8 @@ def main():
 
     # ---- 7. model sanity result
     r = f_mc.result()
-    common.tlc_ok(r, "MC_Raft3.cfg exhaustive")
-    log("TLC MC_Raft3: %d states generated, %d distinct, depth %d, %.1fs" % (r.generated, r.distinct, r.depth, r.wall))
+    common.tlc_ok(r, MC_CFG + " exhaustive")
+    log("TLC " + MC_CFG + ": %d states generated, %d distinct, depth %d, %.1fs" % (r.generated, r.distinct, r.depth, r.wall))
     cov_zero = None
     if f_cov is not None:
         rc = f_cov.result()
@@ -448,6 +521,9 @@ def main():
     for d in divergences[:5]:
         print("DIVERGENCE property=C15 kind=lockstep behaviour=%s step=%d action=%s detail=%s" % (
             d["id"], d["diverged_at"], d.get("action"), d.get("detail")), flush=True)
+    for d in b2_div[:5]:
+        print("DIVERGENCE property=C15 kind=trace-validation trace=%s line=%d spec-invariant=%s event=%s" % (
+            d["trace"], d["line"], d["violated"], d["event"]), flush=True)
     for ptxt in panic_samples[:5]:
         print("DIVERGENCE property=C15 kind=panic %s" % ptxt, flush=True)
 
@@ -473,13 +549,14 @@ def main():
         pass
     coverage = {
         "states": r.distinct, "transitions": r.generated, "exhaustive": True,
-        "model": "MC_Raft3.cfg (3 voters; bounds in the cfg); invariants ElectionSafety LogMatching StateMachineSafety LeaderCompleteness CommitWithinLog PersistedMatchesVolatile + action property HardStateMonotonic",
+        "model": MC_CFG + " (3 voters; bounds in the cfg); invariants ElectionSafety LogMatching StateMachineSafety LeaderCompleteness CommitWithinLog PersistedMatchesVolatile MatchSound + action property HardStateMonotonic",
         "model_depth": r.depth,
         "traces_validated_against_impl": traces,
         "trace_lines_monitored": lines_checked,
         "monitor_mismatches": mism_total,
         "lockstep_behaviours_agreed": lock_ok, "lockstep_steps_compared": lock_steps, "lockstep_divergences": len(divergences),
         "tlc_simulated_behaviours": sim_total,
+        "b2_trace_lines": b2_lines, "b2_trace_lines_matched_by_spec": b2_matched, "b2_traces_accepted": b2_traces, "b2_rejections": len(b2_div),
         "attack_schedules": natk, "attack_rules": sorted(attacks), "attack_steps_not_applicable_on_impl": atk_skipped,
         "random_runs": nfiles * runs_per, "random_events": ev_stats,
         "panics_in_library": panics,
@@ -494,7 +571,7 @@ def main():
         "proposal forwarding disabled, MaxInflightMsgs=256, MaxSizePerMsg unlimited or one entry; ReadIndex and leader transfer not exercised",
         "election timeouts are not simulated with the package RNG: Campaign() is an explicit event, followers tick with TickQuiesced",
     ]
-    if divergences or panic_samples:
+    if divergences or panic_samples or b2_div:
         if not verdict.violations:
             # behaviour of the library departs from the specification (or it panics) but no clause of C15 was
             # falsified on any real trace: conservative "not shown" (DESIGN 2.2 B3 step 5)
